@@ -145,6 +145,14 @@ public:
         }
     }
 
+    void Reset() {
+        idle = false;
+        for (auto& pending : interrupt_pending) {
+            pending = false;
+        }
+        vinterrupt_pending = false;
+    }
+
     void SignalInterrupt(u32 i) {
         interrupt_pending[i] = true;
     }
